@@ -30,6 +30,8 @@ def run(cx):
     cls, fields = pe.ir_classes()
     crl = im.func("_collect_required_libraries")
     rule_names(cx, em, pm, im, crl, fields)
+    from . import c07
+    c07.rule_decl_siblings(cx, "C14-DECL-SIBLINGS")
 
 
 def rule_agree(cx, rid, libs_only=False):
